@@ -6,7 +6,7 @@ package netpoll
 // symbolic inside one size class each (so a shape is one or two paths, not dozens); the
 // operation(s) that follow are fully symbolic. Class boundaries follow the code's own
 // thresholds: LinkBufferCap (4096), BinaryInplaceThreshold (4096), pagesize (8192).
-const verifShapeCount = 19
+const verifShapeCount = 20
 
 func verifShape(id int) *verifLB {
 	var v *verifLB
@@ -128,6 +128,22 @@ func verifShape(id int) *verifLB {
 		rest := first + v.lastWD - v.slices[0].n
 		v.rng(rest, rest+1)
 		v.opSkip()
+	case 19: // Slice reader cut from a Slice reader, first-level reader released, first node consumed
+		v = verifNewLB(0)
+		v.opMallocR(3, 4095)
+		first := v.pendN
+		v.opFlush()
+		v.opMallocR(4096, 8192)
+		v.opFlush()
+		v.rng(2, 4095)
+		v.opSliceMax(first - 1)
+		a := v.slices[0].n
+		v.rng(1, 4095)
+		v.opSliceOfSlice()
+		verifAssume(len(v.slices) == 2)
+		v.opSliceReleaseIdx(0)
+		v.rng(first-a, first-a)
+		v.opSkip()
 	}
 	return v
 }
@@ -142,9 +158,9 @@ func verifSizeIn(lo, hi int) int {
 // Bounded histories (DESIGN 5.1 mode B): a shape, then one arbitrary operation with
 // arbitrary arguments, then drain (flush, read everything back, compare with the reference).
 //
-//verif:bounds 19 shapes (<=6 fixed ops, sizes symbolic per size class) x 1 arbitrary op of 24 kinds + drain; sizes <= 8 MB; Until over <=4 readable bytes; loop unrolling 10 per header
+//verif:bounds 20 shapes (<=7 fixed ops, sizes symbolic per size class) x 1 arbitrary op of 25 kinds + drain (Peek, Next, slice readers, parent Release); sizes <= 8 MB; Until over <=4 readable bytes; loop unrolling 10 per header
 //verif:also C02 C03
-//verif:param 0 455
+//verif:param 0 499
 //verif:loop 10
 func verifHarness_C01_hist1(param int) {
 	v := verifShape(param / verifOpCount)
@@ -157,10 +173,10 @@ func verifHarness_C01_hist1(param int) {
 
 // Two arbitrary operations after a shape (thorough tier).
 //
-//verif:bounds 19 shapes x 2 arbitrary ops (24 kinds each) + drain; sizes <= 8 MB; loop unrolling 10
+//verif:bounds 20 shapes x 2 arbitrary ops (25 kinds each) + drain; sizes <= 8 MB; loop unrolling 10
 //verif:also C02 C03
 //verif:tier thorough
-//verif:param 0 455
+//verif:param 0 499
 //verif:loop 10
 func verifHarness_C01_hist2(param int) {
 	v := verifShape(param / verifOpCount)
